@@ -9,7 +9,7 @@ import (
 type verifRejectData struct{ Code int }
 
 // C12_nsp_chain: k namespace middlewares each accepting or rejecting according to a symbolic Boolean (rejections as
-// error / string / struct); the real serverConn.connect runs on a default or custom namespace. Middlewares run in
+// error / string / struct pointer / struct value with ANY field value / ANY short string); the real serverConn.connect runs on a default or custom namespace. Middlewares run in
 // registration order up to the first rejection; the socket is listed, in its own room, connected, and its connection
 // handlers scheduled IFF nothing rejected; on rejection exactly one CONNECT_ERROR carrying that rejection goes out and
 // nothing of the socket remains.
@@ -30,7 +30,9 @@ func verifH_C12_nsp_chain() {
 	k := verifChoose(0, K)
 	var ran []int
 	firstReject := -1
-	kind := verifChoose(0, 2)
+	kind := verifChoose(0, 4)
+	code := verifAnyInt()                  // kind 3: structured data by value, ANY field value (the zero value included)
+	text := verifString(verifChoose(0, 1)) // kind 4: ANY string of length 0..1 (the empty string included)
 	for i := 0; i < k; i++ {
 		idx := i
 		rej := verifAnyBool()
@@ -47,6 +49,10 @@ func verifH_C12_nsp_chain() {
 				return errors.New("denied")
 			case 1:
 				return "denied"
+			case 3:
+				return verifRejectData{Code: code}
+			case 4:
+				return text
 			}
 			return &verifRejectData{Code: idx}
 		})
@@ -96,6 +102,12 @@ func verifH_C12_nsp_chain() {
 				case 2:
 					d, isData := ce.Message.(*verifRejectData)
 					verifAssert(isData && d.Code == firstReject, "CONNECT_ERROR carries the rejecting middleware's data")
+				case 3:
+					d, isData := ce.Message.(verifRejectData)
+					verifAssert(isData && d.Code == code, "CONNECT_ERROR carries the rejecting middleware's data (by value)")
+				case 4:
+					msg, isStr := ce.Message.(string)
+					verifAssert(isStr && msg == text, "CONNECT_ERROR carries the rejecting middleware's string, whatever it is")
 				}
 			}
 		}
